@@ -505,7 +505,7 @@ func (st *State) initWanted(path string) bool {
 }
 
 var vpIntrinsics map[string]intrinsicFn
-var libIntrinsics map[string]intrinsicFn
+var libIntrinsics = map[string]intrinsicFn{}
 
 func init() {
 	vpIntrinsics = map[string]intrinsicFn{
@@ -626,7 +626,7 @@ func init() {
 	opaque := func(tag string) intrinsicFn {
 		return func(st *State, fr *Frame, fn *ssa.Function, a []Value) Value { return st.strConst(tag) }
 	}
-	libIntrinsics = map[string]intrinsicFn{
+	lib := map[string]intrinsicFn{
 		"fmt.Sprintf": opaque("<fmt.Sprintf>"),
 		"fmt.Sprint":  opaque("<fmt.Sprint>"),
 		"fmt.Errorf": func(st *State, fr *Frame, fn *ssa.Function, a []Value) Value {
@@ -710,6 +710,9 @@ func init() {
 			st.res.LockOps++
 			return nil
 		},
+	}
+	for k, v := range lib {
+		libIntrinsics[k] = v
 	}
 }
 
